@@ -1638,6 +1638,8 @@ def rule_one_length(res, rid, m):
     # header written at the cursor before the copy
     cfg = f.cfg
     okorder = cfg.block_for(hw[0]) == cfg.block_for(c) and cfg.pos_of[hw[0]["id"]] < cfg.pos_of[c["id"]]
+    if not okorder and cfg.block_for(hw[0]) != cfg.block_for(c):
+        okorder = cfg.dominates(cfg.block_for(hw[0]), cfg.block_for(c)) and not cfg.dominates(cfg.block_for(c), cfg.block_for(hw[0]))
     res.check(okorder, rid, "length:header-before-copy", c.get("loc"), "message header is written before the payload slice", "payload slice is copied before its header is written")
     m.copy_len = L
     # the total the loop works against and the bytes it copies are the same object's, read when they are needed: Packet::getPayloadLength()
@@ -1940,6 +1942,12 @@ def rule_writes_inside_frame(res, rid, m, placement=False):
               "the header writer does not decrease the free count by exactly sizeof(MessageHeader) once")
     pos_l = cfg.pos_of.get(next((x["id"] for x in f.nodes() if x.get("k") == "decl" and any(v.get("decl") == ldecl for v in x.get("vars", []))), -1), -1)
     okord = cfg.block_for(hw) == cfg.block_for(c) and pos_l >= 0 and pos_l < cfg.pos_of[hw["id"]] < cfg.pos_of[c["id"]]
+    if not okord and cfg.block_for(hw) != cfg.block_for(c) and pos_l >= 0:
+        # the copy sits in statements spliced in behind the header write: same straight line, later block
+        bh9, bc9 = cfg.block_for(hw), cfg.block_for(c)
+        ldecl_node = next((x for x in f.nodes() if x.get("k") == "decl" and any(v.get("decl") == ldecl for v in x.get("vars", []))), None)
+        okord = cfg.dominates(bh9, bc9) and bc9 not in cfg.dominators().get(bh9, set()) - {bh9} and ldecl_node is not None and \
+            (cfg.block_for(ldecl_node) == bh9 and pos_l < cfg.pos_of[hw["id"]] or (cfg.block_for(ldecl_node) != bh9 and cfg.dominates(cfg.block_for(ldecl_node), bh9)))
     res.check(okord, rid, "chunk:computed-before-header", c.get("loc"), "chunk computed, then header written, then chunk copied",
               "the chunk length is not computed before the header write that takes its 16 bytes")
     # (c) write positions
